@@ -7,6 +7,7 @@ import (
 	"database/sql"
 	"database/sql/driver"
 	"encoding/json"
+	"errors"
 	"fmt"
 	"reflect"
 	"strconv"
@@ -33,9 +34,10 @@ type verifCase struct {
 	Shape  verifShape `json:"shape"`
 	Cols   []string   `json:"cols"`
 	Rows   [][]any    `json:"rows"`
-	Decl   string     `json:"decl"` // declared destination type instead of a reflect.StructOf one
-	Via    string     `json:"via"`  // conn | stmt | tx | txstmt
-	Ctx    bool       `json:"ctx"`  // call the XxxCtx forms directly
+	RowErr bool       `json:"rowerr"` // the result set fails on its first Next (sqlmock RowError(0, ...))
+	Decl   string     `json:"decl"`   // declared destination type instead of a reflect.StructOf one
+	Via    string     `json:"via"`    // conn | stmt | tx | txstmt
+	Ctx    bool       `json:"ctx"`    // call the XxxCtx forms directly
 }
 
 // verifTrans logs the terminal calls a transaction session receives.
@@ -68,8 +70,13 @@ func (t verifTrans) Rollback() error {
 // message, and the same for what it wraps.
 func verifErr(err error) any { return verifsql.ErrInfo(err, verifSentinel) }
 
+// errVerifRow is what the driver reports when a result set fails while it is being read.
+var errVerifRow = errors.New("E:row")
+
 func verifSentinel(err error) string {
 	switch err {
+	case errVerifRow:
+		return "rowerr"
 	case breaker.ErrServiceUnavailable:
 		return "unavailable"
 	case sql.ErrNoRows:
@@ -458,6 +465,9 @@ func verifOrmQuery(c verifCase, dest reflect.Value, db *sql.DB, mock sqlmock.Sql
 			}
 		}
 		rows.AddRow(vals...)
+	}
+	if c.RowErr {
+		rows.RowError(0, errVerifRow)
 	}
 	ctx := context.Background()
 	d := dest.Interface()
